@@ -309,6 +309,8 @@ def main():
         sys.exit(1 if kind in ('assert', 'sanitizer', 'signal', 'hang') else 0)
 
     queries = mod.plan(a.tier, seed)
+    _seen = set()      # a plan may generate the same query twice (same name = same harness and parameters): run it once
+    queries = [q for q in queries if not (q.name in _seen or _seen.add(q.name))]
     if a.only:
         queries = [q for q in queries if re.search(a.only, q.name)]
     if a.list:
